@@ -22,7 +22,7 @@ ASSUMPTIONS = ['muted lines are laid out like unmuted ones (they only emit no by
 V = lambda n: ('v', n)      # noqa
 L = lambda n: ('lbl', n)    # noqa
 C = lambda n: ('c', n)      # noqa
-SYMS = {'v1': (0, 0x3000), 'v2': (-(1 << 20), 1 << 20), 'p': (1, 64), 'n': (0, 5), 't': (-3, 8)}
+SYMS = {'m': (-3, 2), 'v1': (0, 0x3000), 'v2': (-(1 << 20), 1 << 20), 'p': (1, 64), 'n': (0, 5), 't': (-3, 8)}
 
 
 def mk(sid, prog, consts=('v1', 'v2'), origin=Sym('o0', 0, 0x1000), binary=False, assume=(), expect=('ok',), width=48,
@@ -58,6 +58,27 @@ def handwritten():
     S.append(mk('hw:zerountil', [
         ('instr', 'nop', None), ('zerountil', ('+', C(0x100), V('t'))), ('label', 'after'),
         ('data', '.2byte', [L('after')])], consts=('t',), origin=0x100, ))
+    # a string under a multi-byte data directive: what is emitted is what was reserved
+    for d in ('.2byte', '.4byte', '.8byte', '.byte'):
+        for en in ('big', 'little'):
+            S.append(mk(f'hw:string-under{d}:{en}', [
+                ('label', 'a'), ('instr', 'nop', None), ('strdata', d, 'AB'), ('org', ('+', V('v1'), C(0x2000)), None), ('label', 'b'),
+                ('strdata', d, 'x'), ('org', ('+', V('v1'), C(0x2100)), None), ('data', '.2byte', [L('a'), L('b')])],
+                consts=('v1',), endian=en, width=96 if d == '.8byte' else 48))
+    # a count that may be negative: either refused, or nothing moves backwards
+    S.append(mk('hw:fill-count-may-be-negative', [
+        ('data', '.byte', [C(1), C(2), C(3), C(4)]), ('org', ('+', V('v1'), C(0x2000)), None), ('label', 'a'), ('fill', V('m'), C(7)),
+        ('label', 'b'), ('data', '.2byte', [L('a'), L('b')])], consts=('m', 'v1'), expect=('ok', 'rejected')))
+    S.append(mk('hw:zero-count-may-be-negative', [
+        ('data', '.byte', [C(1), C(2), C(3), C(4)]), ('org', ('+', V('v1'), C(0x2000)), None), ('label', 'a'),
+        ('zero', ('-', V('m'), C(1))), ('label', 'b'), ('instr', 'ld16', L('b'))], consts=('m', 'v1'), expect=('ok', 'rejected')))
+    # names that the expression lexer reads as numeric literals cannot be labels or constants
+    for k, name in enumerate(('b1', 'b101', 'each', 'BEACH', 'FACEH', 'B0', 'ah')):
+        S.append(mk(f'hw:label-spelled-like-a-number:{name}', [
+            ('instr', 'nop', None), ('instr', 'nop', None), ('label', name), ('data', '.2byte', [L(name)]), ('instr', 'ld16', L(name))],
+            consts=(), expect=('rejected',)))
+        S.append(mk(f'hw:constant-spelled-like-a-number:{name}', [
+            ('instr', 'nop', None), ('const', name, C(0x77)), ('data', '.2byte', [L(name)])], consts=(), expect=('rejected',)))
     S.append(mk('hw:muted-region', [
         ('label', 'a'), ('instr', 'nop', None), ('mute',), ('data', '.2byte', [L('b')]), ('label', 'm'), ('instr', 'nop', None),
         ('unmute',), ('label', 'b'), ('data', '.2byte', [L('m'), L('a')])], consts=()))
